@@ -50,9 +50,9 @@ const maxContent = 64 << 10
 // root/case.bin, rewritten by every range case), and removed by the test's
 // cleanup.
 type fileTree struct {
-	base, root string
-	files      map[string][]byte // path below root ("/a.txt") -> content
-	explicit   map[string]string
+	top, base, root string
+	files           map[string][]byte // path below root ("/a.txt") -> content
+	explicit        map[string]string
 }
 
 var (
@@ -92,7 +92,7 @@ func getTree(tb testing.TB) *fileTree {
 		tb.Fatalf("cannot create the static root: %v", err)
 	}
 	base := filepath.Join(top, "up2", "up1")
-	ft := &fileTree{base: base, root: filepath.Join(base, "root"), files: map[string][]byte{}, explicit: explicitMap}
+	ft := &fileTree{top: top, base: base, root: filepath.Join(base, "root"), files: map[string][]byte{}, explicit: explicitMap}
 	must := func(err error) {
 		if err != nil {
 			os.RemoveAll(top)
@@ -182,6 +182,9 @@ func newStaticModifier(root string, explicit map[string]string, viaJSON bool) (r
 		return mod, nil
 	}
 	m := map[string]interface{}{"scope": []string{"request", "response"}, "rootPath": root}
+	if root == "" {
+		delete(m, "rootPath") // a configuration without the field
+	}
 	if explicit != nil {
 		m["explicitPaths"] = explicit
 	}
@@ -240,17 +243,18 @@ func boundaryKind(b string) string {
 	return ""
 }
 
-func bodyWho(o bodyOpts) string {
-	who := whoLabel("body", o.ViaJSON)
+// boundaryWho names the case shape "SetBoundary was called with a boundary
+// that is not a plain token" ("" otherwise).
+func boundaryWho(o bodyOpts) string {
 	if o.Boundary != nil && !o.ViaJSON {
 		switch boundaryKind(*o.Boundary) {
 		case "invalid":
-			who += "-set-boundary-rejected-by-writer"
+			return "body-set-boundary-rejected-by-writer"
 		case "quoted":
-			who += "-set-boundary-needing-quotes"
+			return "body-set-boundary-needing-quotes"
 		}
 	}
-	return who
+	return ""
 }
 
 // runBodyModifier answers a request with body.Modifier the way the proxy
@@ -441,7 +445,9 @@ func runRange(c RangeCase) kit.Verdict {
 	content := kit.Bytes(c.Seed, c.Len)
 	switch c.Who {
 	case "body":
-		return judge(bodyWho(c.opts()), content, c.Range, runBodyModifier(content, c.Range, c.opts()))
+		o := runBodyModifier(content, c.Range, c.opts())
+		o.BoundaryWho = boundaryWho(c.opts())
+		return judge(whoLabel("body", c.ViaJSON), content, c.Range, o)
 	case "static":
 		treeMu.Lock()
 		ft := tree
@@ -898,6 +904,64 @@ type PathCase struct {
 	Target   string `json:"target"`
 	Explicit bool   `json:"explicit,omitempty"` // the modifier carries explicitMap
 	ViaJSON  bool   `json:"via_json,omitempty"` // built by parse.FromJSON
+	// Root: how the root is spelled to the modifier (see rootSpellings). "{TOP}" in
+	// Target stands for the absolute path of the scratch tree (it changes per run).
+	Root string `json:"root,omitempty"`
+}
+
+// rootSpellings: key -> (argument for NewModifier / rootPath, directory that
+// is the root). The "cwd-" spellings make the working directory (the package
+// directory) the root: "" and "." mean that to path.Clean and to the OS.
+var rootSpellings = []string{"", "abs-slash", "abs-dot", "abs-dotdot", "abs-doubled", "rel", "rel-dotslash", "rel-slash", "rel-dotdot", "cwd-empty", "cwd-dot", "cwd-dotslash", "cwd-parent-child"}
+
+func spellRoot(ft *fileTree, key string) (arg, dir string, ok bool) {
+	cwd, err := os.Getwd()
+	if err != nil {
+		return "", "", false
+	}
+	rel, err := filepath.Rel(cwd, ft.root)
+	if err != nil {
+		return "", "", false
+	}
+	switch key {
+	case "":
+		return ft.root, ft.root, true
+	case "abs-slash":
+		return ft.root + "/", ft.root, true
+	case "abs-dot":
+		return ft.root + "/.", ft.root, true
+	case "abs-dotdot":
+		return ft.root + "/../root", ft.root, true
+	case "abs-doubled":
+		return ft.base + "//root", ft.root, true
+	case "rel":
+		return rel, ft.root, true
+	case "rel-dotslash":
+		return "./" + rel, ft.root, true
+	case "rel-slash":
+		return rel + "/", ft.root, true
+	case "rel-dotdot":
+		return rel + "/sub/..", ft.root, true
+	case "cwd-empty":
+		return "", cwd, true
+	case "cwd-dot":
+		return ".", cwd, true
+	case "cwd-dotslash":
+		return "./", cwd, true
+	case "cwd-parent-child":
+		return "../" + filepath.Base(cwd), cwd, true
+	}
+	return "", "", false
+}
+
+// cwdTargets: what is asked of a modifier rooted at the working directory:
+// files of the package (below the root), the sentinels and the scratch root's
+// files by their absolute names, system files.
+var cwdTargets = []string{
+	"{TOP}/up2/up1/sentinel.txt", "{TOP}/sentinel.txt", "{TOP}/up2/sentinel.txt", "{TOP}/up2/up1/secret/sentinel.txt", "{TOP}/up2/up1/root/a.txt", "{TOP}/up2/up1/root/sub/b.txt",
+	"/{TOP}/up2/up1/sentinel.txt", "/.{TOP}/up2/up1/sentinel.txt", "/x/..{TOP}/up2/up1/sentinel.txt", "http://example.com{TOP}/up2/up1/sentinel.txt",
+	"/c20_test.go", "/./ref_test.go", "/x/../seq_test.go", "/%63%32%30_test.go", "http://example.com/long_test.go", "/../c20/seq_test.go", "/no-such-file.go",
+	"/etc/passwd", "/etc/hostname", "/proc/self/cmdline", "/", "/..", "/.", "http://example.com",
 }
 
 // parseTarget reads the request line the way the proxy does.
@@ -911,7 +975,7 @@ func parseTarget(target string) (*http.Request, error) {
 // explicit mapping when the cleaned path is one of its keys). It returns the
 // file's content, or nil when no regular file is designated, plus the shape of
 // the case for signatures.
-func designated(ft *fileTree, urlPath, rawTarget string, explicit bool) (content []byte, shape string) {
+func designated(ft *fileTree, root, urlPath, rawTarget string, explicit bool) (content []byte, shape string) {
 	clean := path.Clean("/" + urlPath)
 	rel := clean
 	mapped := false
@@ -920,7 +984,7 @@ func designated(ft *fileTree, urlPath, rawTarget string, explicit bool) (content
 			rel, mapped = path.Clean("/"+to), true
 		}
 	}
-	full := ft.root + rel // rel is absolute and clean: lexically below the root
+	full := root + rel // rel is absolute and clean: lexically below the root
 	fi, err := os.Stat(full)
 	lower := strings.ToLower(rawTarget)
 	switch {
@@ -971,20 +1035,29 @@ func runPath(c PathCase) kit.Verdict {
 	if ft == nil {
 		return kit.Failf("C20/harness/no-tree", "path case without a file tree")
 	}
-	req, err := parseTarget(c.Target)
+	rootArg, rootDir, ok := spellRoot(ft, c.Root)
+	if !ok {
+		return nil
+	}
+	target := strings.ReplaceAll(c.Target, "{TOP}", ft.top)
+	req, err := parseTarget(target)
 	if err != nil {
 		return nil // not a request the proxy would hand to a modifier
 	}
-	want, shape := designated(ft, req.URL.Path, c.Target, c.Explicit)
+	want, shape := designated(ft, rootDir, req.URL.Path, c.Target, c.Explicit)
+	who := whoLabel("static", c.ViaJSON)
+	if c.Root != "" {
+		who += "-root-" + c.Root
+	}
 	sig := func(class string) string {
-		return "C20/" + whoLabel("static", c.ViaJSON) + "/path-" + shape + "/" + class
+		return "C20/" + who + "/path-" + shape + "/" + class
 	}
 	res := proxyutil.NewResponse(200, nil, req)
 	var explicit map[string]string
 	if c.Explicit {
 		explicit = ft.explicit
 	}
-	mod, err := newStaticModifier(ft.root, explicit, c.ViaJSON)
+	mod, err := newStaticModifier(rootArg, explicit, c.ViaJSON)
 	if err != nil {
 		return kit.Failf(sig("json-config-rejected"), "parse.FromJSON rejects the static.Modifier configuration: %v", err)
 	}
@@ -996,7 +1069,7 @@ func runPath(c PathCase) kit.Verdict {
 		return v
 	}
 	if bytes.Contains(o.Body, sentinelMarker) {
-		v.Addf(sig("file-outside-root-served"), "target %q (path %q): status %d with the content of a file outside the root %s", c.Target, req.URL.Path, o.Status, ft.root)
+		v.Addf(sig("file-outside-root-served"), "target %q (path %q): status %d with the content of a file outside the root %s (given to the modifier as %q)", c.Target, req.URL.Path, o.Status, rootDir, rootArg)
 		return v
 	}
 	// An exotic spelling (encoded separators or dots, backslashes) may also be
@@ -1061,12 +1134,25 @@ func classesPath(c PathCase) []string {
 	treeMu.Lock()
 	ft := tree
 	treeMu.Unlock()
-	req, err := parseTarget(c.Target)
-	if err != nil || ft == nil {
+	if ft == nil {
 		return []string{"unparseable-target"}
 	}
-	want, shape := designated(ft, req.URL.Path, c.Target, c.Explicit)
+	_, rootDir, ok := spellRoot(ft, c.Root)
+	req, err := parseTarget(strings.ReplaceAll(c.Target, "{TOP}", ft.top))
+	if err != nil || !ok {
+		return []string{"unparseable-target"}
+	}
+	want, shape := designated(ft, rootDir, req.URL.Path, c.Target, c.Explicit)
 	cl := []string{"shape-" + shape}
+	switch {
+	case strings.HasPrefix(c.Root, "cwd-"):
+		cl = append(cl, "root-is-working-directory")
+	case c.Root != "":
+		cl = append(cl, "root-spelled-unclean")
+	}
+	if strings.Contains(c.Target, "{TOP}") {
+		cl = append(cl, "asks-by-absolute-name")
+	}
 	if want != nil {
 		cl = append(cl, "designates-a-file")
 	} else {
@@ -1183,14 +1269,23 @@ func genTarget(t *rapid.T) string {
 	return p
 }
 
-var pathRule = "request lines parsed by http.ReadRequest as the proxy does: paths built from dot segments, doubled slashes, %2e/%2f/%5c, the same encoded twice and three times (%252e%252e, %252f, %25252e, mixed with single encodings, climbing 1..5 levels towards sentinel files placed 1, 2 and 3 levels above the root), backslashes, NUL, long names and names of files outside the root, devious spellings of existing files, origin- and absolute-form, with and without the explicit path mapping; answered by static.Modifier over a root with sentinel files outside it; judged against path.Clean('/'+path) below the root; non-trivial = the target contains '..' or an encoded dot/separator"
+var pathRule = "request lines parsed by http.ReadRequest as the proxy does: paths built from dot segments, doubled slashes, %2e/%2f/%5c, the same encoded twice and three times (%252e%252e, %252f, %25252e, mixed with single encodings, climbing 1..5 levels towards sentinel files placed 1, 2 and 3 levels above the root), backslashes, NUL, long names and names of files outside the root, devious spellings of existing files, origin- and absolute-form, with and without the explicit path mapping, the root handed to the modifier as a clean absolute path or spelled with a trailing slash / dot segments / doubled slash / relative to the working directory, or as the empty string, '.', './', '../<dir>' (the working directory is the root: its files, the sentinels and system files are asked for by absolute name), through the constructor and through the JSON configuration (rootPath absent when empty); answered by static.Modifier over a root with sentinel files outside it; judged against path.Clean('/'+path) below the root; non-trivial = the target contains '..' or an encoded dot/separator"
 
 var propPath = &kit.Prop[PathCase]{
 	ID: "C20", Name: "static-path", Rule: "rapid: " + pathRule,
 	Run: runPath, NonTrivial: nonTrivialPath, Classes: classesPath,
-	Gates: map[string]float64{"nontrivial": 0.4, "designates-a-file": 0.12, "aims-outside": 0.1, "climbs-out-if-decoded-again": 0.05, "absolute-form": 0.1, "explicit-map": 0.2},
+	Gates: map[string]float64{"nontrivial": 0.4, "designates-a-file": 0.12, "aims-outside": 0.1, "climbs-out-if-decoded-again": 0.05, "root-is-working-directory": 0.05, "root-spelled-unclean": 0.1, "absolute-form": 0.1, "explicit-map": 0.2},
 	Gen: func(t *rapid.T) PathCase {
-		return PathCase{Target: genTarget(t), Explicit: rapid.IntRange(0, 2).Draw(t, "explicit") == 0, ViaJSON: rapid.IntRange(0, 3).Draw(t, "via_json") == 2}
+		c := PathCase{Target: genTarget(t), Explicit: rapid.IntRange(0, 2).Draw(t, "explicit") == 0, ViaJSON: rapid.IntRange(0, 3).Draw(t, "via_json") == 2}
+		if rapid.IntRange(0, 9).Draw(t, "root_spelled") >= 6 {
+			c.Root = rapid.SampledFrom(rootSpellings[1:]).Draw(t, "root")
+			if strings.HasPrefix(c.Root, "cwd-") && rapid.Bool().Draw(t, "cwd_target") {
+				c.Target = rapid.SampledFrom(cwdTargets).Draw(t, "cwd_file")
+			} else if rapid.IntRange(0, 4).Draw(t, "abs_name") == 2 {
+				c.Target = rapid.SampledFrom(cwdTargets[:10]).Draw(t, "abs_file")
+			}
+		}
+		return c
 	},
 }
 
@@ -1219,6 +1314,17 @@ func TestStaticPathMatrix(t *testing.T) {
 			for _, ex := range []bool{false, true} {
 				if !yield(PathCase{Target: fixed, Explicit: ex}) {
 					return
+				}
+			}
+		}
+		// every spelling of the root x what is asked of it by absolute name, of the
+		// working directory, and a handful of traversals
+		for _, key := range rootSpellings[1:] {
+			for _, tg := range append(append([]string{}, cwdTargets...), "/a.txt", "/sub/../a.txt", "/../sentinel.txt", "/%2e%2e/sentinel.txt", "/sub/b.txt", "/alias", "/emptydir", "/../root/a.txt") {
+				for _, vj := range []bool{false, true} {
+					if !yield(PathCase{Target: tg, Root: key, ViaJSON: vj, Explicit: tg == "/alias"}) {
+						return
+					}
 				}
 			}
 		}
